@@ -15,7 +15,7 @@ EXPLANATION = (
     "Processor::eval / Workspace::eval / wasm::process return Err on evaluation errors; (R5) PIPE-AGREE - run and "
     "oal_wasm::process call the same pipeline stages in the same order. Observed exit status, file contents, wording of "
     "diagnostics and document equality across front ends are not decided.")
-EXPLANATION += ' Further clauses: (R6) LOADER-TEXT; (R7) OPTION-PRECEDENCE - Config::{main,target,base} take the command-line option first, each from its own field; (R8) the server recomputes diagnostics from the current texts after every notification and publishes all of them (shared C15.R1/R2/R3/R6); (R9) LOCATION-FREE - implicit component names identify a module relative to the main module, so CLI, playground and two checkouts agree. (R10) LOCATORS (shared C10.R7).'
+EXPLANATION += ' Further clauses: (R6) LOADER-TEXT; (R7) OPTION-PRECEDENCE - Config::{main,target,base} take the command-line option first, each from its own field; (R8) the server recomputes diagnostics from the current texts after every notification and publishes all of them (shared C15.R1/R2/R3/R6); (R9) LOCATION-FREE - implicit component names identify a module relative to the main module, so CLI, playground and two checkouts agree. (R10) LOCATORS (shared C10.R7). R8 also shares C15.R4.'
 TECHNIQUE = "static analysis: who-may-call over the call graph + MIR dominance / error-arm reachability"
 
 RAW_WRITERS = re.compile(r'^(std::fs::(write|remove_file|remove_dir|remove_dir_all|rename|copy|create_dir|create_dir_all|hard_link|set_permissions)'
@@ -489,6 +489,7 @@ def run(c, facts):
     c.shared(R8, c15.r2_refresh_first, 'C15.R2', facts)
     c.shared(R8, c15.r3_reset_all, 'C15.R3', facts)
     c.shared(R8, c15.r6_doc_sync, 'C15.R6', facts)
+    c.shared(R8, c15.r4_change, 'C15.R4', facts)
     import c10
     R10 = c.rule('C13.R10', 'LOCATORS: every front end resolves and opens the file the user named: Url::join / Url::to_file_path, validity from the file system at load time (shared with C10.R7)')
     c.shared(R10, c10.r7_locators, 'C10.R7', facts)
